@@ -214,12 +214,17 @@ type Endpoint struct {
 	// Scribble: Feed passes every piece to Parse in a buffer of its own and overwrites that buffer
 	// with ScribbleByte afterwards, as the engine reuses its read buffer (C11).
 	Scribble bool
-	// LastErr is what the latest Parse call of Feed returned (readable from the after callback).
-	LastErr error
+	// LastErr is what the latest Parse call of Feed returned, LastPiece the buffer it was given
+	// (readable from the after callback).
+	LastErr   error
+	LastPiece []byte
 }
 
 // ScribbleByte is what Feed overwrites its read buffer with after a Parse call (Endpoint.Scribble).
-const ScribbleByte = 0xEE
+// Chosen so that neither it nor its XOR with a byte of the masking keys the checks use
+// (0x11, 0x22..0x2f, 0x33, 0x44) equals the allocator's poison (0xDD) or stale (0xA5) byte: a Conn
+// that unmasks a retained read buffer in place must not look like one that read freed memory.
+const ScribbleByte = 0xEC
 
 type engKey struct{ f, rl int }
 
@@ -390,7 +395,7 @@ func (e *Endpoint) Feed(wire []byte, s Seg, after func(call int, st websocket.Ve
 				piece[i] = ScribbleByte
 			}
 		}
-		e.LastErr = err
+		e.LastErr, e.LastPiece = err, piece
 		r.Calls++
 		r.Fed += hi - lo
 		r.StoppedAt = hi
